@@ -124,6 +124,7 @@ ALPHABET = {
     'hex': set('0123456789abcdef'),
     'mac': set('0123456789ABCDEF-'),
     'hexbyte': set('0123456789ABCDEF'),
+    'hexint': set('0123456789abcdef'),
 }
 
 
@@ -160,7 +161,7 @@ def split(s, sep, maxsplit=-1):
         # 'AA-BB-CC-DD-EE-FF': six two-digit upper-case hex groups
         return [SStr([Atom('hexbyte', z3.simplify((a0.t / (256 ** (5 - k))) % 256))]) for k in range(6)]
     if len(sep) != 1:
-        raise Unsupported('split on multi-character separator of structured string')
+        return split_multi(s, sep, maxsplit)
     for p in s.parts:
         if isinstance(p, Atom):
             al = ALPHABET.get(p.kind)
@@ -180,6 +181,43 @@ def split(s, sep, maxsplit=-1):
                 out.append([])
                 n += 1
                 i = j + 1
+        else:
+            out[-1].append(p)
+    return [concat(x) for x in out]
+
+
+def split_multi(s, sep, maxsplit):
+    """multi-character separator: decidable when some character of sep cannot occur inside any atom (so every
+    occurrence contains a literal character) and no occurrence can straddle a literal/atom boundary"""
+    if maxsplit >= 0:
+        raise Unsupported('split with maxsplit on multi-character separator')
+    alph = []
+    for p in s.parts:
+        if isinstance(p, Atom):
+            al = ALPHABET.get(p.kind)
+            if al is None or (p.kind == 'hexint' and p.extra != ('', 'x')):
+                raise Unsupported('split(%r) through a %s atom' % (sep, p.kind))
+            alph.append(al)
+    if all(all(c in al for c in sep) for al in alph) and alph:
+        raise Unsupported('split(%r): the separator may occur inside an atom' % sep)
+    parts = s.parts
+    for i, p in enumerate(parts):
+        if not isinstance(p, str):
+            continue
+        nxt = parts[i + 1] if i + 1 < len(parts) else None
+        prv = parts[i - 1] if i > 0 else None
+        for k in range(1, len(sep)):
+            if isinstance(nxt, Atom) and p.endswith(sep[:k]) and all(c in ALPHABET[nxt.kind] for c in sep[k:]):
+                raise Unsupported('split(%r): an occurrence may straddle a literal/atom boundary' % sep)
+            if isinstance(prv, Atom) and p.startswith(sep[k:]) and all(c in ALPHABET[prv.kind] for c in sep[:k]):
+                raise Unsupported('split(%r): an occurrence may straddle an atom/literal boundary' % sep)
+    out = [[]]
+    for p in parts:
+        if isinstance(p, str):
+            pieces = p.split(sep)
+            out[-1].append(pieces[0])
+            for q in pieces[1:]:
+                out.append([q])
         else:
             out[-1].append(p)
     return [concat(x) for x in out]
